@@ -1,7 +1,7 @@
 (* C11: the analytic kernel gradients are the true derivatives, for every expression tree *)
 From Coq Require Import Reals List ZArith Lra Lia.
 From Coquelicot Require Import Coquelicot.
-From MellonV Require Import ALists AKernels AKExpr AListsFacts AProfiles ADistThm.
+From MellonV Require Import ALists ARealExtra AKernels AKExpr AListsFacts AProfiles ADistThm.
 Import ListNotations.
 Open Scope R_scope.
 
